@@ -188,6 +188,15 @@ func c13CharProgram() *Prog {
 		}
 		body = append(body, &S{K: "print", Ln: true, Exprs: []*E{{K: "str", Ty: TString, S: "pair"}, lenOf(a), lenOf(b), a, b, cmp("==", a, b)}})
 	}
+	// raw strings that span lines, followed by more tokens on the line they end on
+	for ri, sp := range []string{"`l1\nl2`", "`\n`", "`a\n\nb`", "`x\n`"} {
+		rs := fmt.Sprintf("rs%d", ri)
+		s := sp[1 : len(sp)-1]
+		mk := func() *E { return &E{K: "str", Ty: TString, S: s, Spell: sp} }
+		body = append(body, &S{K: "print", Ln: true, Exprs: []*E{{K: "str", Ty: TString, S: "ml"}, lenOf(mk()), {K: "bin", Ty: TString, Op: "+", L: mk(), R: &E{K: "str", Ty: TString, S: "c"}}, cmp("==", mk(), &E{K: "str", Ty: TString, S: "x"}), mk(), lit(TInt, 7)}})
+		body = append(body, &S{K: "decl", Names: []string{rs}, Exprs: []*E{{K: "bin", Ty: TString, Op: "+", L: mk(), R: mk()}}},
+			&S{K: "print", Ln: true, Exprs: []*E{{K: "str", Ty: TString, S: "ml2"}, lenOf(v(rs, TString)), {K: "index", Ty: TUint8, X: mk(), I: lit(TInt, 0)}}})
+	}
 	p.Funcs = []*Func{{Name: "Main", Body: body}}
 	return p
 }
